@@ -56,6 +56,26 @@ func (x *Exec) event(format string, a ...interface{}) {
 	x.events = append(x.events, fmt.Sprintf(format, a...))
 }
 
+// cmdConfigEvent logs how a command was configured when it is started (fields of the real exec.Cmd struct)
+func (x *Exec) cmdConfigEvent(cmd Value) {
+	p, ok := cmd.(Ptr)
+	if !ok || p.o == nil {
+		return
+	}
+	co, ok := p.o.(*StructObj)
+	if !ok {
+		return
+	}
+	st := x.prog.ImportedPackage("os/exec").Type("Cmd").Type().Underlying().(*types.Struct)
+	for i := 0; i < st.NumFields() && i < len(co.f); i++ {
+		if st.Field(i).Name() == "WaitDelay" {
+			if t, ok := load(co.f[i]).(*Term); ok && t.isC {
+				x.event("waitdelay:%d", int64(t.c))
+			}
+		}
+	}
+}
+
 func (x *Exec) notExistErr() Value {
 	g := x.prog.ImportedPackage("io/fs").Var("ErrNotExist")
 	return load(x.global(g))
@@ -109,6 +129,11 @@ func (x *Exec) ioNative(name string, fn *ssa.Function, args []Value) (Value, boo
 			}
 		}
 		return Tuple{Iface{}, x.notExistErr()}, true
+	case "time.Now":
+		// the clock: a fixed epoch plus one second per call (non-decreasing instants; the value itself is outside every claim)
+		x.clock++
+		u := x.prog.ImportedPackage("time").Func("Unix")
+		return x.call(u, []Value{BV(uint64(1700000000+x.clock), 64), BV(0, 64)}, nil), true
 	case "os.Remove":
 		if n, ok := args[0].(*Str).concrete(); ok {
 			if _, exists := x.fs[n]; exists {
@@ -248,9 +273,11 @@ func (x *Exec) ioNative(name string, fn *ssa.Function, args []Value) (Value, boo
 		return Ptr{o: co}, true
 	case "(*os/exec.Cmd).Start":
 		x.event("start")
+		x.cmdConfigEvent(args[0])
 		return Iface{}, true
 	case "(*os/exec.Cmd).Run":
 		x.event("start")
+		x.cmdConfigEvent(args[0])
 		x.event("wait")
 		if x.waitResult != nil {
 			return x.waitResult, true
